@@ -4,6 +4,7 @@ package main
 // discharge of obligations.
 
 import (
+	"go/ast"
 	"fmt"
 	"go/token"
 	"regexp"
@@ -197,6 +198,7 @@ func genFunction(prog *ssa.Program, cs *Contracts, fn *ssa.Function, fc *FuncCon
 	for _, cl := range fc.Clauses {
 		if cl.Kind == "requires" {
 			c.assume(tTrue, c.evalBool(envR, cl.Expr))
+			c.recordDistinctIDs(envR, cl.Expr)
 		}
 	}
 	// conclusions of the induction lemmas (their base and step cases are separate obligations)
@@ -208,42 +210,7 @@ func genFunction(prog *ssa.Program, cs *Contracts, fn *ssa.Function, fc *FuncCon
 	}
 	// explicit ground instances of induction lemmas: "instantiate LABEL(e1, ..., en)"
 	for _, inst := range fc.Instantiate {
-		i := strings.Index(inst, "(")
-		if i < 0 || !strings.HasSuffix(inst, ")") {
-			panic(vcErr("bad instantiate directive %q", inst))
-		}
-		label := strings.TrimSpace(inst[:i])
-		var ind *Induct
-		for _, x := range cs.Inducts {
-			if x.Label == label {
-				ind = x
-			}
-		}
-		if ind == nil {
-			panic(vcErr("instantiate: no induction lemma %s", label))
-		}
-		args := splitTopLevel(inst[i+1 : len(inst)-1])
-		if len(args) != len(ind.Vars)+1 {
-			panic(vcErr("instantiate %s: %d arguments, the lemma has %d variables plus the induction variable", label, len(args), len(ind.Vars)))
-		}
-		bound := map[string]Val{}
-		for k, a := range args {
-			v := c.eval(envR, parseExprSrc(a, fc.File, fc.Line))
-			if k < len(ind.Vars) {
-				if strings.HasPrefix(ind.Vars[k][1], "[]") {
-					v = c.toSeq(envR, v)
-				}
-				bound[ind.Vars[k][0]] = v
-			} else {
-				bound[ind.N] = v
-			}
-		}
-		e2 := &Env{c: c, st: st0, names: map[string]Val{}, bound: bound}
-		c.inQuant++
-		body := c.evalBool(e2, ind.Body)
-		c.inQuant--
-		c.assume(tTrue, implies(app(SBool, ">=", bound[ind.N].(T), intLit(0)), body))
-		c.note("instance of the induction lemma " + label + " (base and step are discharged as separate obligations)")
+		c.assume(tTrue, c.lemmaInstance(envR, inst, fc.File, fc.Line))
 	}
 	// global axioms
 	for _, ax := range cs.Axioms {
@@ -843,9 +810,15 @@ func (c *Ctx) inductFormula(ind *Induct, mode string) T {
 		binders = append(binders, fmt.Sprintf("(%s Int)", n.S))
 		f = implies(and(app(SBool, ">=", n, intLit(0)), at(n), helpers(n)), at(app(SInt, "+", n, intLit(1))))
 	default: // the conclusion, used as an axiom elsewhere
-		binders = append(binders, fmt.Sprintf("(%s Int)", n.S))
 		body := at(n)
-		f = implies(app(SBool, ">=", n, intLit(0)), body)
+		if !strings.Contains(body.S, n.S) {
+			// the induction variable is not used (a plain lemma): nothing to bind
+			f = body
+			n = T{"", SInt}
+		} else {
+			binders = append(binders, fmt.Sprintf("(%s Int)", n.S))
+			f = implies(app(SBool, ">=", n, intLit(0)), body)
+		}
 		// instantiate on the spec-function applications that mention the induction variable
 		var pats []string
 		seen := map[string]bool{}
@@ -1015,4 +988,82 @@ func splitTopLevel(s string) []string {
 		out = append(out, strings.TrimSpace(s[start:]))
 	}
 	return out
+}
+
+// lemmaInstance evaluates "LABEL(e1, ..., en)" in env: the body of the induction
+// lemma LABEL with its variables bound to the given terms (base and step of the
+// lemma are separate obligations of every check that uses it).
+func (c *Ctx) lemmaInstance(env *Env, inst string, file string, line int) T {
+	i := strings.Index(inst, "(")
+	if i < 0 || !strings.HasSuffix(inst, ")") {
+		panic(vcErr("bad instantiate directive %q", inst))
+	}
+	label := strings.TrimSpace(inst[:i])
+	var ind *Induct
+	for _, x := range c.cs.Inducts {
+		if x.Label == label {
+			ind = x
+		}
+	}
+	if ind == nil {
+		panic(vcErr("instantiate: no induction lemma %s", label))
+	}
+	args := splitTopLevel(inst[i+1 : len(inst)-1])
+	if len(args) != len(ind.Vars)+1 {
+		panic(vcErr("instantiate %s: %d arguments, the lemma has %d variables plus the induction variable", label, len(args), len(ind.Vars)))
+	}
+	bound := map[string]Val{}
+	for k, a := range args {
+		v := c.eval(env, parseExprSrc(a, file, line))
+		if k < len(ind.Vars) {
+			if strings.HasPrefix(ind.Vars[k][1], "[]") {
+				v = c.toSeq(env, v)
+			}
+			bound[ind.Vars[k][0]] = v
+		} else {
+			bound[ind.N] = v
+		}
+	}
+	e2 := &Env{c: c, st: env.st, names: map[string]Val{}, bound: bound}
+	c.inQuant++
+	body := c.evalBool(e2, ind.Body)
+	c.inQuant--
+	c.note("instance of the induction lemma " + label + " (base and step are discharged as separate obligations)")
+	return implies(app(SBool, ">=", bound[ind.N].(T), intLit(0)), body)
+}
+
+// recordDistinctIDs: conjuncts "a.id != b.id" of a precondition are remembered
+// so that reads of one object through stores to the other are resolved at
+// generation time (read-over-write simplification).
+func (c *Ctx) recordDistinctIDs(env *Env, e ast.Expr) {
+	switch x := e.(type) {
+	case *ast.ParenExpr:
+		c.recordDistinctIDs(env, x.X)
+	case *ast.BinaryExpr:
+		if x.Op == token.LAND {
+			c.recordDistinctIDs(env, x.X)
+			c.recordDistinctIDs(env, x.Y)
+			return
+		}
+		if x.Op != token.NEQ {
+			return
+		}
+		isID := func(e ast.Expr) bool {
+			s, ok := e.(*ast.SelectorExpr)
+			return ok && s.Sel.Name == "id"
+		}
+		if !isID(x.X) || !isID(x.Y) {
+			return
+		}
+		a, ok1 := c.eval(env, x.X).(T)
+		b, ok2 := c.eval(env, x.Y).(T)
+		if !ok1 || !ok2 {
+			return
+		}
+		if c.distinctPairs == nil {
+			c.distinctPairs = map[string]bool{}
+		}
+		c.distinctPairs[a.S+"|"+b.S] = true
+		c.distinctPairs[b.S+"|"+a.S] = true
+	}
 }
